@@ -287,6 +287,17 @@ def run(pid, tier, replay=None):
     binary = vlib.build_harness()
     learn_diag_mark(binary)
     inputs = []       # (id, text)
+    if not replay:
+        # design level: every interleaving of Frontend.tla's actions keeps its invariants and action properties
+        r = vlib.tlc("MC_Frontend", "MC_Frontend", workers=2, timeout=600)
+        if "No error has been found" not in r["out"]:
+            if "violated" in r["out"]:
+                v.violation("Frontend.tla: the contract's own properties are violated", {"tlc": r["out"][-3000:]})
+                return v.finish()
+            raise vlib.ToolError("TLC on Frontend.tla did not complete:\n" + r["out"][-1500:])
+        v.cov["states"] += r["distinct"]
+        v.cov["transitions"] += r["states"]
+        v.notes["frontend_design_states"] = r["distinct"]
     if replay:
         rp = json.load(open(replay))["replay"]
         inputs = [(rp["id"], rp["text"])]
